@@ -29,7 +29,7 @@ const (
 func (r SatResult) String() string { return [...]string{"unsat", "sat", "unknown"}[r] }
 
 type SolverStats struct {
-	Queries, SatN, UnsatN, UnknownN, Errors, Fallbacks, TacticRetries int64
+	Queries, SatN, UnsatN, UnknownN, Errors, Fallbacks, TacticRetries, BadModels int64
 	Nanos                                                             int64
 }
 
@@ -342,6 +342,27 @@ func (s *Session) Check(extra *Term, wantModel bool, vars []*Term) (SatResult, m
 	}
 	s.raw("(pop 1)")
 	s.count(res)
+	return res, model, err
+}
+
+// CheckFresh decides sat(PC and extra) in a fresh solver process fed with the
+// path's log (no incremental state), with a model.
+func (s *Session) CheckFresh(extra *Term, vars []*Term) (SatResult, map[string]uint64, error) {
+	q := ""
+	if extra != nil {
+		if extra.IsFalse() {
+			return Unsat, nil, nil
+		}
+		q = s.ref(extra)
+	}
+	var vnames []string
+	for _, v := range vars {
+		vnames = append(vnames, s.ref(v))
+	}
+	res, model, err := s.oneShot(q, true, vnames, vars)
+	if err == nil {
+		s.count(res)
+	}
 	return res, model, err
 }
 
